@@ -4,7 +4,7 @@ import numpy as np
 import torch
 
 from . import project, algrun
-from .g3run import rand_tt, raw_tt, dense_op, rel_err, mk_problem, check_tt, check_operands, TOL, U64, feasible_ranks
+from .g3run import Capture, rand_tt, raw_tt, dense_op, rel_err, mk_problem, check_tt, check_operands, TOL, U64, feasible_ranks
 
 
 # ------------------------------------------------------------------ systems named in the specification
@@ -80,12 +80,15 @@ def run_solve(st, opts):
     if use_cpp and cfg["solver"] != 1:
         return None            # the compiled backend has GMRES only
     ncalls = 2 if cfg["guess"] == "reused" else 1
+    traces = []
     for it in range(ncalls):
         snap = algrun.snapshot(objs)
         stats["calls"] += 1
+        cap = Capture("amen", active=not use_cpp)
         try:
-            x = tt.solvers.amen_solve(A, b, x0=g, eps=eps, max_full=cfg["maxfull"], local_solver=cfg["solver"], preconditioner=prec,
-                                      use_cpp=use_cpp, verbose=False)
+            with cap:
+                x = tt.solvers.amen_solve(A, b, x0=g, eps=eps, max_full=cfg["maxfull"], local_solver=cfg["solver"], preconditioner=prec,
+                                          use_cpp=use_cpp, verbose=False)
         except Exception as ex:  # noqa
             problems.append(mk_problem("C12", "exception", cfg, "call %d raised %s: %s" % (it + 1, type(ex).__name__, str(ex)[:200]), st, {"exc": type(ex).__name__}))
             check_operands(cfg, st, tt, objs, snap, names, problems)
@@ -93,6 +96,17 @@ def run_solve(st, opts):
         check_operands(cfg, st, tt, objs, snap, names, problems)
         if not check_tt("C12", cfg, st, tt, x, "tt", N, [], problems):
             continue
+        t = cap.trace(cfg, [int(r) for r in x.R])
+        if t is not None:
+            t["kind"] = "amen"
+            traces.append(t)
+            if t["result_R"] != t["end"]["rx"]:
+                problems.append(mk_problem("C12", "ranks-vs-shapes", cfg, "the sweep's rank list %s differs from the returned object's ranks %s" % (t["end"]["rx"], t["result_R"]), st))
+            # which local solver actually ran (coverage of the configuration's intended path)
+            if any(not e["use_full"] for e in t["ev"]):
+                stats["path:iterative-local-solver"] = stats.get("path:iterative-local-solver", 0) + 1
+            if any(e["use_full"] for e in t["ev"]):
+                stats["path:direct-local-solver"] = stats.get("path:direct-local-solver", 0) + 1
         res = torch.linalg.norm(Ad @ project.dense(x.cores).reshape(-1) - bd).item() / torch.linalg.norm(bd).item()
         key = "res_over_eps_max"
         stats[key] = max(stats.get(key, 0), res / eps)
@@ -100,7 +114,7 @@ def run_solve(st, opts):
             problems.append(mk_problem("C12", "residual", cfg, "call %d: ||Ax-b||/||b|| = %.3g > %g*eps (eps=%g, ranks %s)" % (
                 it + 1, res, TOL["C12"], eps, x.R), st))
     stats["nontrivial"] = 1 if d >= 2 and (cfg["r"] >= 2 or sysc == "laplace") else 0
-    return {"problems": problems, "stats": stats, "sample": {"cfg": cfg}}
+    return {"problems": problems, "stats": stats, "sample": {"cfg": cfg}, "artifacts": traces}
 
 
 def run_divide(st, opts):
